@@ -2,9 +2,9 @@
    hypothesis of the C19 theorems holds -- the Examples beside the theorems -- and the witness that
    refutes the concat clause for --version 2.  The same archive is replayed against the real tool
    (corpus/C19/ex-*.case). *)
-From GoCar Require Import Bytes Varint Cid Header Frame V2Header Scan Index Store CliCmds.
+From GoCar Require Import Bytes Varint Cid Header Frame V2Header Scan Index Store Traversal CliCmds.
 From GoCarProofs Require Import BytesFacts VarintFacts CidFacts HeaderFacts ScanFacts ScanTrunc ScanTruncV2 StoreInv
-  CliBase CliWalk CliProducers CliConcat CliFilter CliClosure CliTheorems CliGet CliAppend CliIndexFacts CliFull.
+  CliBase CliWalk CliProducers CliConcat CliFilter CliClosure CliTheorems CliGet CliAppend CliIndexFacts CliFull CliGetDag.
 
 Definition hok_true : bytes -> bytes -> option bool := fun _ _ => Some true.
 
@@ -381,6 +381,63 @@ Example ex_inspect_quick :
 Proof.
   apply (inspect_quick_v2_indexless hok_true dec_header_canon dec_header_pragma ex_hb ex_roots ex_bs 0 0 7 []
            ex_hdr_ok ex_blocks_ok); nlt.
+Qed.
+
+(* ---- round 4: car get-dag on the same archive, with a load sequence that repeats a CID and contains an
+   identity block (kc1 kci kc2 kc1): --version 1 keeps kc1 kci kc2, --version 2 keeps kc1 kc2 -------------- *)
+Example ex_opens : exists r, opens dec_header_canon ex_v2 r /\ reader_roots dec_header_canon r ex_v2 = Ok ex_roots.
+Proof.
+  exact (opens_no_index hok_true dec_header_canon dec_header_pragma ex_hb ex_roots ex_bs ex_v2
+           ex_hdr_ok ex_blocks_ok ex_indexable ex_no_index).
+Qed.
+
+Example ex_dag_hdr_ok : hdr_ok dec_header_canon (dag_hb kc1) [kc1].
+Proof. split; [vm_compute; reflexivity|nle]. Qed.
+
+Example ex_get_dag_v1 :
+  exists r, opens dec_header_canon ex_v2 r /\
+    get_dag dec_header_canon 1 None ex_bs true ex_v2 None
+    = (true, Some (payload_hb (dag_hb kc1) [(kc1, [x61]); (kci, [x69; x64]); (kc2, [x62; x63])])).
+Proof.
+  destruct ex_opens as (r & Ho & Hr). exists r. split; [exact Ho|].
+  rewrite (get_dag_root_from_archive hok_true dec_header_canon dec_header_pragma 1 ex_v2 r kc1 ex_bs true None Ho Hr).
+  rewrite (get_dag_v1 hok_true dec_header_canon dec_header_pragma ex_v2 r kc1 ex_bs true None Ho).
+  reflexivity.
+Qed.
+
+Example ex_get_dag_v2_closed :
+  exists out st,
+    get_dag dec_header_canon 2 (Some kc1) ex_bs true ex_v2 None = (true, Some out) /\
+    br_read_all hok_true dec_header_canon default_ropts out = Ok (2, [kc1], mkscan [(kc1, [x61]); (kc2, [x62; x63])] EEof) /\
+    inspect_car hok_true dec_header_canon true out = Ok st /\ is_count st = 2 /\
+    verify_car hok_true dec_header_canon out = Ok tt.
+Proof.
+  destruct ex_opens as (r & Ho & _).
+  destruct (get_dag_v2_closed hok_true dec_header_canon dec_header_pragma ex_v2 r kc1 ex_bs None Ho
+              ex_blocks_ok ex_hashes_ok ex_dag_hdr_ok ex_indexable) as (H1 & H2 & (st & H3 & H4) & H5); [nlt|].
+  do 2 eexists. split; [exact H1|]. split; [exact H2|]. split; [exact H3|]. split; [exact H4|].
+  apply H5; [vm_compute; reflexivity|nlt].
+Qed.
+
+Example ex_get_dag_v1_closed :
+  let out := payload_hb (dag_hb kc1) (first_occ ex_bs) in
+  get_dag dec_header_canon 1 (Some kc1) ex_bs true ex_v2 None = (true, Some out) /\
+  verify_car hok_true dec_header_canon out = Ok tt.
+Proof.
+  destruct ex_opens as (r & Ho & _).
+  destruct (get_dag_v1_closed hok_true dec_header_canon dec_header_pragma ex_v2 r kc1 ex_bs None Ho
+              ex_blocks_ok ex_hashes_ok ex_dag_hdr_ok) as (H1 & _ & _ & H5).
+  split; [exact H1|]. apply H5. vm_compute. reflexivity.
+Qed.
+
+(* the two versions agree on a load sequence without identity CIDs and multihash twins *)
+Example ex_versions_agree :
+  first_occ [(kc1, [x61]); (kc2, [x62; x63]); (kc1, [x61])] = dedup_blocks [(kc1, [x61]); (kc2, [x62; x63]); (kc1, [x61])].
+Proof.
+  apply first_occ_eq_dedup. intros c Hc. cbn [map fst In] in Hc.
+  destruct Hc as [<-|[<-|[<-|[]]]]; (split; [vm_compute; reflexivity|split; [vm_compute; reflexivity|]]);
+    intros c' Hc'; cbn [map fst In] in Hc'; destruct Hc' as [<-|[<-|[<-|[]]]]; intros Hs; try reflexivity;
+    vm_compute in Hs; discriminate.
 Qed.
 
 (* ---- the same bytes as the replayed corpus case ---------------------------------------------------- *)
